@@ -129,13 +129,39 @@ def obligations(cx):
                 want = cs[0] * exp(poly) if typ == 'exponential' else cs[0] * log(poly)
             cx.ob("programme.%s.len%d" % (typ, L), r.pc, eq(r.value, want), function='TemperatureProgram.' + typ,
                   statement="programme value = closed form of its type evaluated at the given time")
-    cx.bounded.append(dict(function='TemperatureProgram.program', bound="coefficient lists of length 1..%d" % maxlen, reason="sum over a coefficient list: unrolled"))
+    cx.bounded.append(dict(function='TemperatureProgram.program', bound="coefficient lists of length 1..%d" % maxlen, reason="sum over a coefficient list: unrolled (kept as a cross-check of the generic argument below)"))
+    # coefficient lists of ARBITRARY length: builtin sum() by its contract (the sum of the list's elements); proved from the bodies: the list that is
+    # summed has the right length, its generic element j is the right monomial, and the result wraps that sum as the closed form of the type says
+    from ..symex import Seq as _Seq
+    nc = var('nc', 'I'); jg = var('jg', 'I')
+    for typ in ('polynomial', 'exponential', 'logarithmic'):
+        got = {}
+        def run(ex, typ=typ, got=got):
+            tp = W.mk(src, 'TemperatureProgram', coefficients=_Seq(nc, lambda i: app('c', lift(i)), owner='external', tag=('coef',)), type=typ)
+            v = ex.call_function(src.find('TemperatureProgram.program'), [x], {}, self_obj=tp, inline=True)
+            return v, list(getattr(ex, 'sums', []))
+        ps = cx.explore(run, pre=[nc >= (1 if typ == 'polynomial' else 2), x > 0])
+        r = only_return(ps, 'program')
+        val, sums = r.value
+        t = "programme.%s.generic" % typ
+        fnq = 'TemperatureProgram.' + typ
+        cx.ob(t + ".one-sum", [], blit(len(sums) == 1 and isinstance(val, T)), kind='paths', function=fnq, statement="the body takes exactly one sum over a list built from the coefficients")
+        if len(sums) != 1 or not isinstance(val, T): continue
+        S, q = sums[0]
+        off = 0 if typ == 'polynomial' else 1
+        hy = r.pc + [jg >= 0, jg < nc - off]
+        cx.ob(t + ".length", r.pc, eq(lift(q.n), nc - off), function=fnq, statement="one summand per coefficient%s" % ('' if off == 0 else ' after the first'))
+        cx.ob(t + ".summand", hy, eq(q.fn(jg), app('c', jg + off) * exp(log(x) * jg)), function=fnq, statement="summand j is c[j%s] * t^j" % ('' if off == 0 else '+1'))
+        want = S if typ == 'polynomial' else app('c', lift(0)) * (exp(S) if typ == 'exponential' else log(S))
+        cx.ob(t + ".closed-form", r.pc, eq(val, want), function=fnq, statement="programme value = closed form of its type over the sum of the monomials")
+        cx.must_fail(t + ".summand", hy, eq(q.fn(jg), app('c', jg + off) * exp(log(x) * (jg + 1))))
+    cx.assume_note("assumed contract of the builtin sum(list): the sum of the list's elements (TemperatureProgram is proved for coefficient lists of arbitrary length against it; t^j is exp(j log t), t > 0)")
     tp = W.mk(src, 'TemperatureProgram', coefficients=PList([var('c0')], owner='external'), type='cubic-spline')
     ps = cx.explore(call(src, 'TemperatureProgram.program', [x], self_obj=tp), pre=[x > 0])
     all_raise(cx, "programme.unknown-type-raises", ps, classes=('AttributeError',), function='TemperatureProgram.program')
     cx.assume_note("latent heat per kg of component i = get_vaporisation_heat(T)/M_i*1000; specific heat per kg = get_specific_heat(T)/M_i (real Component methods executed)")
     cx.assume_note("no property judges the physics of the condensation-heat expression; C03 fixes its component-symmetric form and step-0 agreement")
-    cx.assume_note("TemperatureProgram.program by contract inside the process models (pure function of time); its body is proved against the closed forms for coefficient lists up to the stated bound")
+    cx.assume_note("TemperatureProgram.program by contract inside the process models (pure function of time); its body is proved against the closed forms for coefficient lists of arbitrary length (generic summand) and, unrolled, for lists up to the stated bound")
 
 
 def replay_case(r):
